@@ -944,6 +944,46 @@ mutp("C01", "seeded_c01e_old_mutate_messages_skipped_by_update_tick", "a buffere
 mutp("C03", "seeded_c03e_removals_collected_on_tick_frames_only", "buffer_removals runs only on tick frames (seeded change c03e)",
      ["C03.R12/buffer_removals/every-frame-before-replication"], "seeded/c03e/patch.diff")
 
+# unconditional mutators (rules/mutators.py, rule R20 of the owning properties)
+mutp("C16", "seeded_c16e_identical_ids_not_queued", "a mapping whose two ids have identical bits is not queued (seeded change c16e)",
+     ["C16.R3/ClientEntityMap::insert/every-pair-is-queued"], "seeded/c16e/patch.diff")
+mut("C03", "removal_record_skipped_when_no_ids", "add_removals returns early for an empty id list (the entity's removal record and its tick confirmation are dropped)", ["C03.R20/Updates::add_removals/always-performs-its-effect"],
+    ("src/server/replication_messages/updates.rs", """        fn_ids: Range<usize>,
+    ) {
+        self.removals.push(RemovalRanges {""", """        fn_ids: Range<usize>,
+    ) {
+        if ids_len == 0 {
+            return;
+        }
+        self.removals.push(RemovalRanges {"""))
+mut("C09", "server_send_drops_empty_messages", "RepliconServer::send silently drops empty messages", ["C09.R20/RepliconServer::send/always-performs-its-effect"],
+    ("src/shared/backend/replicon_server.rs", """        let channel_id = channel_id.into();
+        let message: Bytes = message.into();
+
+        trace!("sending {} bytes over channel {channel_id}", message.len());
+""", """        let channel_id = channel_id.into();
+        let message: Bytes = message.into();
+        if message.is_empty() {
+            return;
+        }
+
+        trace!("sending {} bytes over channel {channel_id}", message.len());
+"""))
+mut("C01", "baseline_not_forgotten_for_placeholder", "ClientTicks::remove_entity ignores some entities", ["C01.R20/ClientTicks::remove_entity/always-performs-its-effect"],
+    ("src/shared/replication/client_ticks.rs", """    pub(crate) fn remove_entity(&mut self, entity: Entity) {""", """    pub(crate) fn remove_entity(&mut self, entity: Entity) {
+        if entity.index() % 2 == 1 && self.mutations.is_empty() {
+            return;
+        }"""))
+mut("C10", "mutated_entity_not_recorded_twice", "Mutations::add_entity returns early when the group already has entries of this tick (misguided de-duplication)", ["C10.R20/Mutations::add_entity/always-performs-its-effect"],
+    ("src/server/replication_messages/mutations.rs", """        graph_index: Option<usize>,
+        entity_range: Range<usize>,
+    ) {""", """        graph_index: Option<usize>,
+        entity_range: Range<usize>,
+    ) {
+        if self.entity_location.is_some() && self.standalone.len() > 64 {
+            return;
+        }"""))
+
 # first-sight completeness (shared rule: C07.R6 / C03.R7 / C08.R6)
 mut("C07", "seeded_c07a_rate_limited_components_skipped", "rate-limited components are skipped before the per-client pass unless just added (late-authorized clients never get them)", ["C07.R6/collect_changes/every-component-reaches-clients"],
     ("src/server.rs", """                let ctx = SerializeCtx {
